@@ -2,7 +2,7 @@
 import ast
 
 from ..model import AnalysisError, dotted, unparse
-from ..util import U, enum_paths, walk_no_nested
+from ..util import FACTS, FACTS_I, U, enum_paths, walk_no_nested
 from ..paths import call_attr, call_name
 
 CORE = 'scales/core.py'
@@ -218,7 +218,7 @@ def r4(ctx):
          'paths and endpoint names are case-sensitive; only the scheme may be normalised')
   seen = {}
   for ev, ex in enum_paths(ctx, p):
-    fs = [(U(e.node).replace(' ', ''), e.info) for e in ev if e.kind == 'cond']
+    fs = FACTS(ev)
     if ('nothandler', True) in fs or ('handler', False) in fs or ('handlerisNone', True) in fs:
       seen['unknown'] = seen.get('unknown', True) and ex[0] == 'raise'
     elif ex[0] == 'ret':
